@@ -291,6 +291,28 @@ except OSError:
 FREEZE = {} if os.environ.get("VERIF_K4_FREEZE") else None
 
 
+def bug_message(fn, site):
+    """the message of a bug!/assume site (its identity inside the function), or its kind"""
+    for c in fn.calls:
+        if c.line == site.line:
+            ck = callee_kind(c)
+            if ck and ck[0] == "bug":
+                for a in c.args:
+                    if a.const is not None and isinstance(a.const.get("dbg"), str) and a.const["dbg"].startswith('"'):
+                        return a.const["dbg"].strip('"')[:80]
+    return site.kind
+
+
+def multiset_le(a, b):
+    b = list(b)
+    for x in a:
+        if x in b:
+            b.remove(x)
+        else:
+            return False
+    return True
+
+
 def sites_in(fn):
     out = []
     for b in range(fn.nblocks):
@@ -381,7 +403,20 @@ def run_k4(F, rep, entries, audit, bug_audit, rule="K4 may-panic", stop=(), skip
                 break
         f = sites[0].fn
         site = "%s:%s" % (f.file, ",".join(str(s.line) for s in sites))
-        if ok is None:
+        fkey = "%s|%s|bug-class" % (rep.pid, fp)
+        msgs = sorted(bug_message(f, s_) for s_ in sites)
+        if FREEZE is not None:
+            FREEZE[fkey] = msgs
+        frozen = FINGERPRINTS.get(fkey)
+        if ok is not None and frozen is not None and FREEZE is None and not multiset_le(msgs, frozen):
+            extra = list(msgs)
+            for x in frozen:
+                if x in extra:
+                    extra.remove(x)
+            rep.violation("%s|bug-class|audit-stale" % fp, rule,
+                          "%s holds internal-error sites that were not there when the function was audited (%s): %s. `bug!`/`assume` panic in debug builds; "
+                          "audit the new site (is its condition out of reach of every input?) and refreeze (tools/k4_freeze.py)" % (fp, ok, extra), site)
+        elif ok is None:
             rep.violation("%s|bug-class|unaudited" % fp, rule,
                           "function on an entry path holds %d internal-error (`bug!`/`assume`/debug_assert) sites "
                           "and is not audited (panic with debug assertions); path: %s" % (len(sites), chain_of(seen, f, None)), site)
